@@ -170,7 +170,7 @@ Definition read_literal (t : ptable) (ts : list tok) : option (sexp * list tok) 
               match parse_int s with Some z => Some (L [A "int"; sx_Z z]) | None => None end
             else if String.eqb dt (spec_xsd_uri ++ "double") then Some (L [A "float"; A s])
             else if String.eqb dt (spec_xsd_uri ++ "boolean") then
-              match parse_boolean s with
+              match xsd_boolean s with
               | Some b => Some (L [A "bool"; A (if b then "true" else "false")])
               | None => Some (L [A "lit"; A s; A dt; A "none"])
               end
